@@ -233,6 +233,14 @@ pub mod eventcodes;
 mod message;
 mod receiver;
 
+#[cfg(feature = "verif-hooks")]
+#[allow(missing_docs)]
+pub mod verif {
+    //! Verification hooks (feature `verif-hooks`); not part of the public API
+    pub use crate::eventcodes::verif::*;
+    pub use crate::receiver::verif::*;
+}
+
 pub use message::{
     EventCode, InvalidDateErr, Message, MessageDecodeErr, MessageHeader, MessageResult, Originator,
     Phenomenon, SignificanceLevel,
